@@ -44,7 +44,7 @@ static void run_case (int format, int ch, int n, int idscheme, int lenscheme, in
 		if (vh_check_inv (s, "sf_set_chunk")) { n = i + 1 ; break ; }
 		if ((mix & 2) && i == n / 2) sf_set_string (s, SF_STR_ARTIST, "artist between chunks") ;
 		}
-	over = total > 90000 ? "|total>90KiB" : "" ;
+	over = total > 50000 ? "|total>50KB" : "" ;		/* the header cache grows by doubling up to 100 KiB: totals beyond ~50-64 KB may not fit */
 	if (sf_writef_short (s, audio, N) != N) vh_viol (vh_key ("C13|audio-write|%s%s", fn, over), "audio write failed after %d chunks: %s", n, sf_strerror (s)) ;
 	if (late)
 	{	SF_CHUNK_INFO ci ; memset (&ci, 0, sizeof (ci)) ; snprintf (ci.id, sizeof (ci.id), "late") ; ci.id_size = 4 ; ci.datalen = 24 ; ci.data = "late chunk after audio!!" ;
@@ -140,7 +140,7 @@ int main (int argc, char **argv)
 	{	int format = majors [a] | subs [b] ;
 		if (!vh_accepts (format, c, 44100)) continue ;
 		for (k = 0 ; k < (int) (sizeof (counts) / sizeof (counts [0])) ; k++) for (ids = 0 ; ids < 5 ; ids++)
-		{	int reps = vh_thorough ? 3 : 1, r ;
+		{	int reps = vh_thorough ? 4 : 2, r ;
 			if (c == 2 && !vh_thorough && (k % 3)) continue ;
 			for (r = 0 ; r < reps ; r++)
 			{	if (!vh_case ("%s ch=%d chunks=%d ids=%d rep=%d", vh_fname (format), c, counts [k], ids, r)) continue ;
